@@ -32,6 +32,8 @@ func joinItems(items []string) string {
 // ---------------- C01 ----------------
 
 func genC01(c *Ctx) {
+	specialCases(c, "fasta")
+	flatBufferRecords(c, "fasta")
 	// Per-record encoding: Write == MarshalText == model bytes; lines <= 80.
 	for i := 0; i < c.n(300); i++ {
 		r := c.fastaRec(400)
@@ -121,6 +123,9 @@ func genC01(c *Ctx) {
 // ---------------- C02 ----------------
 
 func genC02(c *Ctx) {
+	specialCases(c, "fastq")
+	flatBufferRecords(c, "fastq")
+	qualsLengthGrid(c)
 	for i := 0; i < c.n(300); i++ {
 		r := c.fastqRec(300)
 		var wb bytes.Buffer
@@ -282,6 +287,8 @@ func samEqual(a, b *sam.SAM) bool {
 }
 
 func genC03(c *Ctx) {
+	specialCases(c, "sam")
+	specialCases(c, "samh")
 	for i := 0; i < c.n(500); i++ {
 		s := c.samRec()
 		var wb bytes.Buffer
@@ -451,6 +458,7 @@ func truncBed(b *bed.BED) *bed.BED {
 func bedOpArgs(b *bed.BED) string { return bedS(b)[2:] }
 
 func genC04(c *Ctx) {
+	specialCases(c, "bed")
 	for i := 0; i < c.n(600); i++ {
 		n := 3 + c.rng.Intn(10)
 		b := c.bedRec(n)
@@ -573,6 +581,7 @@ func allTrees(n int, f func(parents []int)) {
 }
 
 func genC05(c *Ctx) {
+	specialCases(c, "newick")
 	check := func(ts []*newick.Node, seps [][]byte, kind string) {
 		txt := nwkWrite(ts, seps)
 		var want []string
